@@ -39,9 +39,7 @@ unsafe impl<L: Lockable> RawLock for RefLockCollection<'_, L> {
 	}
 
 	unsafe fn raw_unlock_write(&self) {
-		for lock in &self.locks {
-			lock.raw_unlock_write();
-		}
+		utils::attempt_to_recover_writes_from_panic(&self.locks)
 	}
 
 	unsafe fn raw_read(&self) {
@@ -53,9 +51,7 @@ unsafe impl<L: Lockable> RawLock for RefLockCollection<'_, L> {
 	}
 
 	unsafe fn raw_unlock_read(&self) {
-		for lock in &self.locks {
-			lock.raw_unlock_read();
-		}
+		utils::attempt_to_recover_reads_from_panic(&self.locks)
 	}
 }
 
